@@ -191,7 +191,7 @@ EvSplitAb(e) ==
   PFail("split_Ab", /\ e.b = [ i \in DOMAIN e.matrix |-> e.matrix[i][1] ]
                     /\ e.A = [ i \in DOMAIN e.matrix |-> Tail(e.matrix[i]) ]
                     /\ e.A_vars = Tail(e.vars) /\ e.A_index = e.index
-                    /\ e.linalg_A = e.A /\ e.linalg_b = e.b)
+                    /\ e.linalg_A = e.A /\ e.linalg_b = e.b /\ e.linalg_A_vars = Tail(e.vars))
 
 PolyOpNames == {"reduce_oneshot", "reduce_ops", "tighten", "classify", "construct", "partition", "lists", "split_Ab"}
 PolyVerdict(e) ==
